@@ -98,7 +98,18 @@ class GuardHooks(L.LockHooks):
 
 from .opaque_ext import EXTERNALS, ext_getattr, ext_opaque_iter, ext_opaque_keys, ext_opaque_len, ext_isinstance, ext_rlock  # noqa: E402,F401
 
-TRIV = Loop(lambda c: [])
+def _all_heap_keys_but_lock():
+    keys = []
+    for cls in L.ALL:
+        for f, t in cls.fields.items():
+            if (cls.name, f) != ('LRI', '_lock'):
+                keys.append((cls.name, f))
+    return keys
+
+
+# loops of the bulk operations carry no functional invariant here, but they must not lose the identity of the lock: everything
+# is havocked except LRI._lock (G4 says it is never replaced; the loop frame obligation re-checks it for the body)
+TRIV = Loop(lambda c: [], heap=_all_heap_keys_but_lock())
 
 
 def S_update(eng, st, variant='LRI'):
